@@ -1,0 +1,333 @@
+// Copyright 2026 Anapaya Systems
+//
+// Licensed under the Apache License, Version 2.0 (the "License");
+// you may not use this file except in compliance with the License.
+// You may obtain a copy of the License at
+//
+//   http://www.apache.org/licenses/LICENSE-2.0
+//
+// Unless required by applicable law or agreed to in writing, software
+// distributed under the License is distributed on an "AS IS" BASIS,
+// WITHOUT WARRANTIES OR CONDITIONS OF ANY KIND, either express or implied.
+// See the License for the specific language governing permissions and
+// limitations under the License.
+//! Seams for deterministic simulation.
+//!
+//! Without the cargo feature `verif-hooks` (the default) everything in this module is a plain
+//! alias or an `#[inline]` forwarder to the real clock, timer, spawner, lock and hasher, so call
+//! sites compile to exactly what they would without it.
+//!
+//! With the feature enabled, a simulator can install a [`VerifRuntime`] on a thread; calls made
+//! on that thread are then routed to it. Threads without an installed runtime keep the real
+//! behaviour.
+
+#[cfg(not(feature = "verif-hooks"))]
+mod imp {
+    use std::{
+        future::Future,
+        time::{Duration, SystemTime},
+    };
+
+    pub use std::{hash::RandomState, sync::Mutex};
+
+    /// Handle of a task spawned through [`spawn`].
+    pub type TaskHandle = tokio::task::JoinHandle<()>;
+
+    /// The current wall clock time.
+    #[inline(always)]
+    pub fn system_now() -> SystemTime {
+        SystemTime::now()
+    }
+
+    /// Sleeps for the given duration.
+    #[inline(always)]
+    pub fn sleep(duration: Duration) -> tokio::time::Sleep {
+        tokio::time::sleep(duration)
+    }
+
+    /// Spawns a background task.
+    #[inline(always)]
+    pub fn spawn<F>(_name: &'static str, future: F) -> TaskHandle
+    where
+        F: Future<Output = ()> + Send + 'static,
+    {
+        tokio::spawn(future)
+    }
+
+    /// A uniformly distributed value in `[0, 1)`.
+    #[inline(always)]
+    pub fn rand_f32() -> f32 {
+        rand::random::<f32>()
+    }
+
+    /// A point at which a simulator may switch to another task. No-op.
+    #[inline(always)]
+    pub fn sched_point(_label: &'static str) {}
+}
+
+#[cfg(feature = "verif-hooks")]
+mod imp {
+    use std::{
+        any::Any,
+        cell::RefCell,
+        future::Future,
+        hash::{BuildHasher, Hasher},
+        ops::{Deref, DerefMut},
+        pin::Pin,
+        sync::{Arc, LockResult, PoisonError, TryLockError},
+        time::{Duration, SystemTime},
+    };
+
+    /// The simulator side of the seams.
+    pub trait VerifRuntime: Send + Sync {
+        /// The simulated wall clock.
+        fn system_now(&self) -> SystemTime;
+        /// A timer on the simulated clock.
+        fn sleep(&self, duration: Duration) -> Pin<Box<dyn Future<Output = ()> + Send>>;
+        /// Runs `future` as a new simulated task.
+        fn spawn(&self, name: &'static str, future: Pin<Box<dyn Future<Output = ()> + Send>>);
+        /// A point at which the simulator may switch to another task.
+        fn sched_point(&self, label: &'static str);
+        /// Called when a lock could not be taken; returns once it is worth trying again.
+        fn lock_contended(&self, label: &'static str);
+        /// Called after a lock was released.
+        fn lock_released(&self, label: &'static str);
+        /// Randomness for jitter and hash seeds.
+        fn rand_u64(&self, label: &'static str) -> u64;
+        /// State published by the code under test.
+        fn probe(&self, key: &'static str, value: &dyn Any);
+    }
+
+    thread_local! {
+        static CURRENT: RefCell<Option<Arc<dyn VerifRuntime>>> = const { RefCell::new(None) };
+    }
+
+    /// Installs `rt` for the current thread, returning the previously installed runtime.
+    pub fn install(rt: Option<Arc<dyn VerifRuntime>>) -> Option<Arc<dyn VerifRuntime>> {
+        CURRENT.with(|c| std::mem::replace(&mut *c.borrow_mut(), rt))
+    }
+
+    /// The runtime installed on the current thread.
+    pub fn current() -> Option<Arc<dyn VerifRuntime>> {
+        CURRENT.try_with(|c| c.borrow().clone()).ok().flatten()
+    }
+
+    /// Handle of a task spawned through [`spawn`].
+    pub enum TaskHandle {
+        /// A real tokio task.
+        Tokio(tokio::task::JoinHandle<()>),
+        /// A task owned by the simulator.
+        Simulated,
+    }
+
+    /// The current wall clock time.
+    pub fn system_now() -> SystemTime {
+        match current() {
+            Some(rt) => rt.system_now(),
+            None => SystemTime::now(),
+        }
+    }
+
+    /// Sleeps for the given duration.
+    pub async fn sleep(duration: Duration) {
+        match current() {
+            Some(rt) => rt.sleep(duration).await,
+            None => tokio::time::sleep(duration).await,
+        }
+    }
+
+    /// Spawns a background task.
+    pub fn spawn<F>(name: &'static str, future: F) -> TaskHandle
+    where
+        F: Future<Output = ()> + Send + 'static,
+    {
+        match current() {
+            Some(rt) => {
+                rt.spawn(name, Box::pin(future));
+                TaskHandle::Simulated
+            }
+            None => TaskHandle::Tokio(tokio::spawn(future)),
+        }
+    }
+
+    /// A uniformly distributed value in `[0, 1)`.
+    pub fn rand_f32() -> f32 {
+        match current() {
+            Some(rt) => (rt.rand_u64("rand_f32") >> 40) as f32 / (1u64 << 24) as f32,
+            None => rand::random::<f32>(),
+        }
+    }
+
+    /// A point at which a simulator may switch to another task.
+    pub fn sched_point(label: &'static str) {
+        if let Some(rt) = current() {
+            rt.sched_point(label);
+        }
+    }
+
+    /// Publishes a value to the simulator.
+    pub fn probe(key: &'static str, value: &dyn Any) {
+        if let Some(rt) = current() {
+            rt.probe(key, value);
+        }
+    }
+
+    /// A `std::sync::Mutex` whose acquisition and release are visible to the simulator.
+    #[derive(Debug, Default)]
+    pub struct Mutex<T>(std::sync::Mutex<T>);
+
+    /// Guard of [`Mutex`].
+    pub struct MutexGuard<'a, T> {
+        inner: Option<std::sync::MutexGuard<'a, T>>,
+        rt: Option<Arc<dyn VerifRuntime>>,
+    }
+
+    impl<T> Mutex<T> {
+        /// Creates a new mutex.
+        pub const fn new(value: T) -> Self {
+            Mutex(std::sync::Mutex::new(value))
+        }
+
+        /// Acquires the mutex.
+        pub fn lock(&self) -> LockResult<MutexGuard<'_, T>> {
+            let Some(rt) = current() else {
+                return match self.0.lock() {
+                    Ok(g) => {
+                        Ok(MutexGuard {
+                            inner: Some(g),
+                            rt: None,
+                        })
+                    }
+                    Err(p) => {
+                        Err(PoisonError::new(MutexGuard {
+                            inner: Some(p.into_inner()),
+                            rt: None,
+                        }))
+                    }
+                };
+            };
+            loop {
+                rt.sched_point("mutex.lock");
+                match self.0.try_lock() {
+                    Ok(g) => {
+                        return Ok(MutexGuard {
+                            inner: Some(g),
+                            rt: Some(rt),
+                        });
+                    }
+                    Err(TryLockError::Poisoned(p)) => {
+                        return Err(PoisonError::new(MutexGuard {
+                            inner: Some(p.into_inner()),
+                            rt: Some(rt),
+                        }));
+                    }
+                    Err(TryLockError::WouldBlock) => rt.lock_contended("mutex.lock"),
+                }
+            }
+        }
+    }
+
+    impl<T> Deref for MutexGuard<'_, T> {
+        type Target = T;
+        fn deref(&self) -> &T {
+            self.inner.as_ref().expect("guard is live")
+        }
+    }
+
+    impl<T> DerefMut for MutexGuard<'_, T> {
+        fn deref_mut(&mut self) -> &mut T {
+            self.inner.as_mut().expect("guard is live")
+        }
+    }
+
+    impl<T> Drop for MutexGuard<'_, T> {
+        fn drop(&mut self) {
+            drop(self.inner.take());
+            if let Some(rt) = self.rt.take()
+                && !std::thread::panicking()
+            {
+                rt.lock_released("mutex.unlock");
+            }
+        }
+    }
+
+    /// A `BuildHasher` that is seeded from the simulator, so that hash map iteration order is a
+    /// reproducible choice. Falls back to the randomly keyed std hasher.
+    #[derive(Clone, Debug)]
+    pub struct RandomState {
+        real: Option<std::hash::RandomState>,
+        seed: u64,
+    }
+
+    impl Default for RandomState {
+        fn default() -> Self {
+            Self::new()
+        }
+    }
+
+    impl RandomState {
+        /// Creates a new state.
+        pub fn new() -> Self {
+            match current() {
+                Some(rt) => {
+                    RandomState {
+                        real: None,
+                        seed: rt.rand_u64("hash_seed"),
+                    }
+                }
+                None => {
+                    RandomState {
+                        real: Some(std::hash::RandomState::new()),
+                        seed: 0,
+                    }
+                }
+            }
+        }
+    }
+
+    /// Hasher of [`RandomState`].
+    pub enum SeededHasher {
+        /// The std hasher.
+        Real(std::hash::DefaultHasher),
+        /// FNV-1a mixed with a seed.
+        Seeded(u64),
+    }
+
+    impl Hasher for SeededHasher {
+        fn finish(&self) -> u64 {
+            match self {
+                SeededHasher::Real(h) => h.finish(),
+                SeededHasher::Seeded(s) => {
+                    let mut z = *s;
+                    z = (z ^ (z >> 30)).wrapping_mul(0xBF58_476D_1CE4_E5B9);
+                    z = (z ^ (z >> 27)).wrapping_mul(0x94D0_49BB_1331_11EB);
+                    z ^ (z >> 31)
+                }
+            }
+        }
+
+        fn write(&mut self, bytes: &[u8]) {
+            match self {
+                SeededHasher::Real(h) => h.write(bytes),
+                SeededHasher::Seeded(s) => {
+                    for b in bytes {
+                        *s ^= u64::from(*b);
+                        *s = s.wrapping_mul(0x0100_0000_01b3);
+                    }
+                }
+            }
+        }
+    }
+
+    impl BuildHasher for RandomState {
+        type Hasher = SeededHasher;
+        fn build_hasher(&self) -> SeededHasher {
+            match &self.real {
+                Some(r) => SeededHasher::Real(r.build_hasher()),
+                None => SeededHasher::Seeded(self.seed ^ 0xcbf2_9ce4_8422_2325),
+            }
+        }
+    }
+}
+
+pub use imp::*;
